@@ -13,13 +13,23 @@ type Sexp struct {
 	IsL  bool
 }
 
-func A(s string) Sexp         { return Sexp{Atom: s} }
-func N(n int64) Sexp          { return Sexp{Atom: strconv.FormatInt(n, 10)} }
-func B(b string) Sexp         { return Sexp{Atom: "x" + hex.EncodeToString([]byte(b))} }
-func L(xs ...Sexp) Sexp       { return Sexp{List: xs, IsL: true} }
-func LS(xs []Sexp) Sexp       { return Sexp{List: xs, IsL: true} }
-func (s Sexp) Head() string   { if s.IsL && len(s.List) > 0 { return s.List[0].Atom }; return "" }
-func (s Sexp) Args() []Sexp   { if s.IsL && len(s.List) > 0 { return s.List[1:] }; return nil }
+func A(s string) Sexp   { return Sexp{Atom: s} }
+func N(n int64) Sexp    { return Sexp{Atom: strconv.FormatInt(n, 10)} }
+func B(b string) Sexp   { return Sexp{Atom: "x" + hex.EncodeToString([]byte(b))} }
+func L(xs ...Sexp) Sexp { return Sexp{List: xs, IsL: true} }
+func LS(xs []Sexp) Sexp { return Sexp{List: xs, IsL: true} }
+func (s Sexp) Head() string {
+	if s.IsL && len(s.List) > 0 {
+		return s.List[0].Atom
+	}
+	return ""
+}
+func (s Sexp) Args() []Sexp {
+	if s.IsL && len(s.List) > 0 {
+		return s.List[1:]
+	}
+	return nil
+}
 func (s Sexp) Bytes() string {
 	if strings.HasPrefix(s.Atom, "x") {
 		b, _ := hex.DecodeString(s.Atom[1:])
